@@ -7,7 +7,7 @@ SCHEMA = {
     't2': [('id', 'INTEGER'), ('a', 'INTEGER'), ('d', 'TEXT')],
     't3': [('id', 'INTEGER'), ('x', 'INTEGER'), ('y', 'TEXT')],
 }
-TEXTS = ['x', 'y', 'abc', 'Abc', '', 'a b', "it's", '%', 'zz', 'b\\s']
+TEXTS = ['x', 'y', 'abc', 'Abc', '', 'a b', "it's", '%', 'zz', 'b\\s', '"q"', 'say "hi"']
 # column layouts the expression helpers may draw from (incl. the derived table used by the generator)
 LAYOUT = dict(SCHEMA)
 LAYOUT['_d'] = [('id', 'INTEGER'), ('a', 'INTEGER')]
@@ -121,7 +121,7 @@ class Gen:
         if k == 'upper':
             return f'upper({c})'
         if k == 'const':
-            return "'" + r.choice(['x', 'abc', "it''s", '', 'b\\s', 'p%c', 'a:b']) + "'"
+            return "'" + r.choice(['x', 'abc', "it''s", '', 'b\\s', 'p%c', 'a:b', '"q"', 'say "hi"', '"']) + "'"
         if k == 'concat':
             return f"{c} || '-' || {c}"
         if r.random() < 0.3:
